@@ -789,6 +789,9 @@ def run_stream(ctx, model, cases, stream, tol=common.TOL, on_result=None, rerun=
             d = compare(out, ans, tol)
             if d:
                 ctx.disagree(stream, c.describe(), impl_summary(out), ans + " :: " + d)
+                if ans.startswith("ok ") and out["status"] == "err" and out["kind"] == "raw":
+                    # the command has a defined result for this input (the theorems of the property are about it) and the implementation crashes instead
+                    ctx.fail("%s fails with %s (%s) on an input for which its result is defined: %s" % (c.cmd, out["cls"], str(out.get("text"))[:80], ans[:120]), c.describe())
         if rerun and out["status"] == "ok":
             # the same command over the very same input objects again (no copies in between) must give the same result:
             # a body that writes into an input array corrupts every later consumer of that input
